@@ -105,7 +105,7 @@ class Ref(object):
 
     def fill(self, t, asset, qty):
         price = self.quote(asset, t)
-        exact = price * qty
+        exact = price * F(qty)
         cons = core.round_candidates(exact)
         if len(cons) > 1:
             self.ambiguous += 1
@@ -114,6 +114,9 @@ class Ref(object):
         return price, comm
 
     def settle(self, asset, qty, price, commission):
+        qty = F(qty)
+        if qty.denominator == 1:
+            qty = int(qty)
         self.cash -= price * qty + commission
         self.flow += abs(price * qty) + commission
         self.held[asset] = self.held.get(asset, 0) + qty
@@ -173,7 +176,9 @@ class Ref(object):
                 weights = {a: 0.0 for a in full}
                 weights.update(weights_cfg)
                 cands = self.targets(t, weights)
-                act = dict(actual_orders.get(t, [])) if actual_orders is not None else None
+                act = None
+                if actual_orders is not None:
+                    act = {a: (int(q) if float(q).is_integer() else q) for a, q in actual_orders.get(t, [])}
                 orders = []
                 for a in sorted(weights):
                     have = self.held.get(a, 0)
